@@ -964,7 +964,10 @@ fn rule_c17(ctx: &Ctx, out: &mut Vec<Violation>) {
     for s in m.streams.values() {
         let hostile_send = s.sends.iter().find(|x| x.5);
         let bad_open = definitely_malformed_name(&s.sub) || s.max_msgs < 0 || s.max_msgs > 65535;
-        if let Some((seq, _, _, _, _, _)) = hostile_send {
+        // (only for a stream that was opened successfully: one that was refused - unknown
+        // subscription, bad opening request - has its own status)
+        let opened_ok = matches!(s.started, Some((_, _, OK)));
+        if let Some((seq, _, _, _, _, _)) = hostile_send.filter(|_| opened_ok) {
             if let Some(b) = m.barrier_after(*seq) {
                 match &s.end {
                     Some((es, _, StreamEnd::Status(code, _))) if *es < b.seq => {
